@@ -300,8 +300,81 @@ func rejectWriteFails() {
 	fx.Settle()
 	vrt.Observe("%s typ=%d bad=%v closed=%v ran=%d", ak.name, typ, bad, a.Raw.Peer().Closed(), w.Root.Total())
 }
+// slowAuth is an authenticator that takes its time for the good pair: the
+// harness decides when its verdict comes.
+type slowAuth struct {
+	gate    chan struct{}
+	entered int
+}
+
+func (a *slowAuth) Authenticate(user, token string) bool {
+	if user == "u" && token == "t" {
+		a.entered++
+		<-a.gate
+		return true
+	}
+	return false
+}
+
+// slowAuthenticator: connection A presents the good pair and the authenticator
+// does not answer for a long time (timers may fire); connection B presents a
+// bad pair meanwhile and afterwards; then the verdict for A arrives. B never
+// presented accepted credentials: it reaches nothing and is refused.
+func slowAuthenticator() {
+	sa := &slowAuth{gate: make(chan struct{})}
+	w := fx.Start(sa)
+	a, b := w.RawPeer(), w.RawPeer()
+	a.StartDrain()
+	b.StartDrain()
+	late := vrt.ChooseFree(2, "B authenticates after A's verdict arrived") == 1
+	vrt.Explore()
+	ida := a.NextID()
+	a.Send(net.Call, 0, 0, 8, ida, payload(pGood))
+	vrt.Quiesce() // A's request is inside the authenticator; every timer of the server had its chance
+	bad := func() {
+		b.Send(net.Call, 0, 0, 8, b.NextID(), payload(pBad))
+		vrt.Quiesce()
+	}
+	if !late {
+		bad()
+	}
+	close(sa.gate)
+	vrt.Quiesce()
+	if late {
+		bad()
+	}
+	idb := b.NextID()
+	b.Send(net.Call, 1, 1, 100, idb, fx.Int32(9))
+	vrt.Quiesce()
+	if w.Root.Total() > 0 {
+		vrt.Failf("service-reached-unauthenticated/slow-authenticator", "method bodies %v ran for connection B, which only ever presented a refused pair (A's slow verdict: late=%v)", w.Root.Order, late)
+	}
+	for _, r := range b.Replies(idb) {
+		if r.Hdr.Type == net.Reply {
+			vrt.Failf("reply-from-service-unauthenticated/slow-authenticator", "connection B got a success reply from the service")
+		}
+	}
+	if !b.EOF {
+		vrt.Failf("unauthenticated-connection-not-closed/slow-authenticator", "connection B is still open after calling a service without accepted credentials")
+	}
+	// A, whose pair is good, is served once its verdict has arrived (unless the
+	// server gave up on it, which the statement does not forbid)
+	ida2 := a.NextID()
+	a.Send(net.Call, 1, 1, 100, ida2, fx.Int32(4))
+	vrt.Quiesce()
+	if len(a.Replies(ida)) > 0 && a.Replies(ida)[0].Hdr.Type == net.Reply {
+		vrt.Flag("slow-verdict-accepted")
+		if rs := a.Replies(ida2); len(rs) != 1 || rs[0].Hdr.Type != net.Reply {
+			vrt.Failf("authenticated-connection-refused/slow-authenticator", "connection A was told it is authenticated but cannot call the service")
+		}
+	}
+	fx.Settle()
+	vrt.Observe("late=%v entered=%d ran=%d", late, sa.entered, w.Root.Total())
+}
 
 func init() {
+	reg.Register(&reg.Scenario{Property: "C06", Name: "slow-authenticator", Body: slowAuthenticator, Quick: 1, Thorough: 2,
+		Doc: "the authenticator takes arbitrarily long for connection A's good pair; connection B presents a bad pair before or after A's verdict arrives, then calls a service: B is refused and closed", MustFlag: []string{"slow-verdict-accepted"}})
 	reg.Register(&reg.Scenario{Property: "C06", Name: "reject-answer-cannot-be-written", Body: rejectWriteFails, Quick: 1, Thorough: 2,
 		Doc: "the unauthenticated peer stopped reading (server writes fail, reads go on) and sends calls / posts to a service: the connection is closed, nothing is delivered"})
 	reg.Register(&reg.Scenario{Property: "C06", Name: "sequences-2", Body: sequences(2, false, false), Quick: 0, Thorough: 1,
